@@ -181,3 +181,51 @@ def fingerprint_plumbing_cases(res, tmp):
         if len(seen) != 1 or seen[0][2] != want or seen[0][1] != "192.0.2.9":
             res.violations.append({"clause": "middleware-arguments-over-tls", "signature": "C04:tls-args",
                                    "case": {"certificate": c["name"] if c else None, "request": line.decode("latin-1")}, "trace": {"seen": str(seen)[:300], "expected_fingerprint": want}})
+
+def fingerprint_collision_cases(res, tmp, pid="C05"):
+    """several client certificates that agree in everything a cache might key on (issuer, subject, serial number, validity) but
+    have different keys - hence different DER and fingerprints - presented one after the other in one process: the middleware
+    must see the fingerprint of the certificate actually presented on THIS connection, every time"""
+    import datetime, hashlib as _h
+    from cryptography import x509
+    from cryptography.x509.oid import NameOID
+    from cryptography.hazmat.primitives import hashes, serialization
+    from cryptography.hazmat.primitives.asymmetric import ec
+    from nauyaca.server.protocol import GeminiServerProtocol
+    from nauyaca.protocol.response import GeminiResponse
+    name = x509.Name([x509.NameAttribute(NameOID.COMMON_NAME, "member")])
+    t0 = datetime.datetime(2026, 1, 1, tzinfo=datetime.timezone.utc)
+    twins = []
+    for i in range(3):
+        key = ec.generate_private_key(ec.SECP256R1())
+        cert = (x509.CertificateBuilder().subject_name(name).issuer_name(name).public_key(key.public_key()).serial_number(4096)
+                .not_valid_before(t0).not_valid_after(t0 + datetime.timedelta(days=3650)).sign(key, hashes.SHA256()))
+        der = cert.public_bytes(serialization.Encoding.DER)
+        twins.append({"name": "twin%d" % i, "fp": "sha256:" + _h.sha256(der).hexdigest(), "pem": cert.public_bytes(serialization.Encoding.PEM),
+                      "key_pem": key.private_bytes(serialization.Encoding.PEM, serialization.PrivateFormat.PKCS8, serialization.NoEncryption())})
+    async def one(c):
+        seen = []
+        class MW:
+            async def process_request(self, url, ip, fp=None):
+                seen.append(fp); return True, None
+        cctx = tlsmem.client_ctx()
+        cp, kp = os.path.join(tmp, "tw.pem"), os.path.join(tmp, "tw.key")
+        open(cp, "wb").write(c["pem"]); open(kp, "wb").write(c["key_pem"])
+        cctx.use_certificate_file(cp); cctx.use_privatekey_file(kp)
+        pair = tlsmem.Pair(lambda: GeminiServerProtocol(lambda r: GeminiResponse(20, "text/plain", "x"), MW()), cctx=cctx)
+        pair.handshake(); pair.client.sendall(b"gemini://localhost/private/x\r\n"); pair.to_server()
+        for _ in range(8): await asyncio.sleep(0)
+        ip = pair.server.inner_protocol
+        if ip is not None and ip.timeout_handle: ip.timeout_handle.cancel()
+        if hasattr(pair.server, "_cancel_handshake_timer"): pair.server._cancel_handshake_timer()
+        return seen
+    async def go():
+        order = [twins[0], twins[1], twins[0], twins[2], twins[1]]
+        return [(c, await one(c)) for c in order]
+    for i, (c, seen) in enumerate(asyncio.run(go())):
+        res.evaluations += 1; res.nontriv(("fp-twin", i)); res.count("fingerprint-twins")
+        if seen != [c["fp"]]:
+            res.violations.append({"clause": "the fingerprint given to the middleware is that of the certificate presented on this connection",
+                                   "signature": "%s:fingerprint-twins" % pid,
+                                   "case": {"connection": i, "certificates": "same issuer, subject, serial and validity; different keys", "presented": c["name"]},
+                                   "trace": {"seen": seen, "expected": c["fp"]}})
